@@ -532,6 +532,10 @@ func (s *JavaFullListener) EnterMethodCall(ctx *parser.MethodCallContext) {
 
 	targetCtx := ctx.GetParent().GetChild(0).(antlr.ParseTree)
 	var targetType = ParseTargetType(targetCtx.GetText())
+	if targetCtx.GetText() == "this" {
+		// this.m() calls a method of the current class
+		targetType = currentClz
+	}
 
 	if targetCtx.GetChild(0) != nil {
 		switch x := targetCtx.GetChild(0).(type) {
